@@ -185,7 +185,8 @@ int main(int argc, char** argv)
 
     std::vector<Config> cfgs;
     const CAmount FEE = 5000;
-    for (bool pre : {false, true}) {
+    // cheap sequential configurations (action completes before the wait) first, so a deadline-cut run still covers them
+    for (bool pre : {true, false}) {
         cfgs.push_back({0, 1, 2, MAX_MONEY, 0, pre});
         cfgs.push_back({0, 2, 2, MAX_MONEY, 0, pre});
         cfgs.push_back({1, 0, 2, FEE, FEE, pre});         // fees rise exactly by the threshold
@@ -197,7 +198,7 @@ int main(int argc, char** argv)
             cfgs.push_back({4, 1, 2, MAX_MONEY, 0, pre});
         }
     }
-    cfgs.push_back({3, 0, 3, MAX_MONEY, 0, true});        // twenty-minute rule
+    cfgs.insert(cfgs.begin(), {3, 0, 3, MAX_MONEY, 0, true});        // twenty-minute rule
     cfgs.push_back({2, 0, 1, MAX_MONEY, 0, false});
     uint64_t total_exec = 0, total_points = 0, configs = 0;
     int distinct = 0;
